@@ -43,7 +43,7 @@ func runC16(seed uint64, n int, tier string, outDir string) []*Stats {
 		defer os.RemoveAll(root)
 	}
 	r := NewRng(seed)
-	cf := NewCoqFile("From V Require Import Common.Base C16.Checked C16.Wtf8 C16.Vlq16 C16.CssNum C16.Packet C16.Pieces C16.CssIdent C16.JsxEntities C16.CssLex C16.Harness.")
+	cf := NewCoqFile("From V Require Import Common.Base C16.Checked C16.Wtf8 C16.Vlq16 C16.CssNum C16.Packet C16.Pieces C16.CssIdent C16.JsxEntities C16.CssLex C16.Globstar C16.Harness.")
 	st := NewStats("c16", seed)
 	corpus, err := ExtractCorpus(repoDir())
 	if err != nil {
@@ -57,6 +57,7 @@ func runC16(seed uint64, n int, tier string, outDir string) []*Stats {
 	runPacketProbe(r, n/2, st, cf)
 	runJSXEntities(r, n, st, cf)
 	runCSSLex(r, 2*n, st, cf)
+	runGlobstar(r, n, st, cf)
 	st.Finish("distinct input bytes AND (non-ASCII / multi-unit / error path / boundary) per decoder family")
 	if err := os.WriteFile(filepath.Join(outDir, "c16_cases.v"), []byte(cf.String()), 0o644); err != nil {
 		panic(err)
@@ -180,6 +181,7 @@ func genSearchCases(r *Rng, count int, corpus map[string][]Seed) []*Case {
 	grid(cssTails, []string{"css", "local-css"})
 	grid(jsonTails, []string{"json"})
 	atomGrid(r, corpus, mk)
+	configFieldCases(r, 150+count/3, corpus, mk)
 	inputSourceMapCases(r, count/4, mk)
 	for i := 0; i < count; i++ {
 		mode := r.Intn(100)
@@ -280,6 +282,9 @@ func caseSize(c *Case) int {
 
 func describeCase(c *Case) map[string]interface{} {
 	m := map[string]interface{}{"kind": c.Kind, "opts": c.Opts, "derived_from": c.Desc}
+	if ext := extQuoted(&c.Opts); len(ext) > 0 {
+		m["opts_compiled_values_go_quoted"] = ext
+	}
 	if c.Kind == "build" {
 		fs := map[string]string{}
 		for k, v := range c.Files {
@@ -327,6 +332,11 @@ func runSearch(r *Rng, n int, tier string, corpus map[string][]Seed) *Stats {
 			st.Fail("deadlock: no result and no CPU progress (confirmed by a re-run alone)", describeCase(c), fmt.Sprintf("no result after %d ms wall with only %d ms of CPU for %d input bytes", o.Millis, o.CPUMillis, caseSize(c)), "terminates within seconds")
 		case o.Status == "starved":
 			st.Histogram["inconclusive-starved-by-machine-load"]++
+		case o.Status == "died" && strings.Contains(o.Stderr, "regexp: Compile(") && strings.Contains(o.Stderr, "invalid UTF-8"):
+			// own failure kind (finding C16-regexp-invalid-utf8): cannot mask any other crash
+			st.Fail("process death: regexp.MustCompile on an input-derived pattern holding invalid UTF-8 (lone surrogate), outside any recover wrapper", describeCase(c), clip(o.Stderr, 1200), "ordinary diagnostics or output")
+		case o.Status == "ok" && len(o.Flagged) > 0 && allFlaggedAre(o.Flagged, "regexp: Compile(", "invalid UTF-8"):
+			st.Fail("recovered panic: regexp.MustCompile on an input-derived pattern holding invalid UTF-8 (lone surrogate)", describeCase(c), o.Flagged, "ordinary diagnostics or output")
 		case o.Status == "died":
 			st.Fail("crash: the process died while building this input", describeCase(c), clip(o.Stderr, 2500), "ordinary diagnostics or output")
 		case o.Status == "panic":
@@ -399,4 +409,59 @@ func runDepthProbe(st *Stats) {
 	default:
 		st.Extra["depth_probe"] = "inconclusive: " + o.Status + " " + clip(o.Stderr, 200)
 	}
+}
+
+// extQuoted: the compiled option values of a case, Go-quoted (they may hold invalid UTF-8)
+func extQuoted(o *Opts) map[string]string {
+	out := map[string]string{}
+	put := func(k string, v interface{}, empty bool) {
+		if !empty {
+			out[k] = fmt.Sprintf("%+q", v)
+		}
+	}
+	put("define", o.DefineKV, len(o.DefineKV) == 0)
+	put("pure", o.Pure, len(o.Pure) == 0)
+	put("mangle_props", o.MangleProps, o.MangleProps == "")
+	put("reserve_props", o.ReserveProps, o.ReserveProps == "")
+	put("alias", o.Alias, len(o.Alias) == 0)
+	put("external", o.External, len(o.External) == 0)
+	put("loader", o.LoaderMap, len(o.LoaderMap) == 0)
+	put("out_extension", o.OutExtension, len(o.OutExtension) == 0)
+	put("banner", o.Banner, len(o.Banner) == 0)
+	put("footer", o.Footer, len(o.Footer) == 0)
+	put("entry_names", o.EntryNames, o.EntryNames == "")
+	put("chunk_names", o.ChunkNames, o.ChunkNames == "")
+	put("asset_names", o.AssetNames, o.AssetNames == "")
+	put("jsx_factory", o.JSXFactory, o.JSXFactory == "")
+	put("jsx_fragment", o.JSXFragment, o.JSXFragment == "")
+	put("jsx_import_source", o.JSXImportSource, o.JSXImportSource == "")
+	put("conditions", o.Conditions, len(o.Conditions) == 0)
+	put("main_fields", o.MainFields, len(o.MainFields) == 0)
+	put("resolve_extensions", o.ResolveExtensions, len(o.ResolveExtensions) == 0)
+	put("drop_labels", o.DropLabels, len(o.DropLabels) == 0)
+	put("inject", o.Inject, len(o.Inject) == 0)
+	put("public_path", o.PublicPath, o.PublicPath == "")
+	put("source_root", o.SourceRoot, o.SourceRoot == "")
+	put("supported", o.Supported, len(o.Supported) == 0)
+	put("log_override", o.LogOverride, len(o.LogOverride) == 0)
+	put("mangle_cache", o.MangleCacheJSON, o.MangleCacheJSON == "")
+	return out
+}
+
+// allFlaggedAre: every flagged message that mentions a panic contains all the given substrings
+// (stack-trace notes of the same message are ignored)
+func allFlaggedAre(flagged []string, subs ...string) bool {
+	n := 0
+	for _, f := range flagged {
+		if !strings.HasPrefix(f, "panic:") {
+			continue
+		}
+		n++
+		for _, s := range subs {
+			if !strings.Contains(f, s) {
+				return false
+			}
+		}
+	}
+	return n > 0
 }
